@@ -1113,22 +1113,36 @@ def json_equiv(a, b):
     return a == b
 
 
-def _boolify(v, in_list):
-    """(value with ['i', 0/1] items of lists replaced by ['b', False/True], anything replaced?)"""
+def _boolify(ses, t, v, in_list=False):
+    """(value with ['i', 0/1] items of INTEGER lists replaced by ['b', False/True], anything replaced?) - directed by
+    the declared type: a bool in a Float list is converted by the validator and written as a float, which is another
+    matter"""
+    from stone.ir import Alias, Nullable, List, Map, Struct, Union, Int32, Int64, UInt32, UInt64
+    cur = t
+    while isinstance(cur, (Alias, Nullable)):
+        cur = cur.data_type
     k = v[0]
-    if k == 'i' and in_list and v[1] in (0, 1):
+    if k == 'i' and in_list and v[1] in (0, 1) and isinstance(cur, (Int32, Int64, UInt32, UInt64)):
         return ['b', bool(v[1])], True
-    if k in ('l', 'u'):
-        out = [_boolify(x, True) for x in v[1]]
+    if k in ('l', 'u') and isinstance(cur, List):
+        out = [_boolify(ses, cur.data_type, x, True) for x in v[1]]
         return [k, [a for a, _ in out]], any(c for _, c in out)
-    if k == 'd':
-        out = [(a, _boolify(b, in_list)) for a, b in v[1]]
+    if k == 'd' and isinstance(cur, Map):
+        out = [(a, _boolify(ses, cur.value_data_type, b, in_list)) for a, b in v[1]]
         return ['d', [[a, b] for a, (b, _) in out]], any(c for _, (_b, c) in out)
     if k == 'S':
-        out = [(a, _boolify(b, False)) for a, b in v[2]]
+        dt = ses.built.ir_by_ref.get(v[1])
+        if dt is None:
+            return v, False
+        fields = {f.name: f for c in irdump.chain(dt) for f in c.fields}
+        out = [(a, _boolify(ses, fields[a].data_type, b, False) if a in fields else (b, False)) for a, b in v[2]]
         return ['S', v[1], [[a, b] for a, (b, _) in out]], any(c for _, (_b, c) in out)
     if k == 'U':
-        b, c = _boolify(v[3], False)
+        dt = ses.built.ir_by_ref.get(v[1])
+        f = next((f for f in dt.all_fields if f.name == v[2]), None) if dt is not None else None
+        if f is None:
+            return v, False
+        b, c = _boolify(ses, f.data_type, v[3], False)
         return ['U', v[1], v[2], b], c
     return v, False
 
@@ -1151,7 +1165,7 @@ def suite_wire(ck, sessions, n_values, judge=True):
                 cases.append((label, ir, irt, validator, built[1], ses.codec.to_tagged(built[1])))
                 # the same value with Python booleans where a list holds the integers 0 / 1: a bool is an int in
                 # Python and is valid for an integer type; the wire form is still a JSON number
-                tvb, changed = _boolify(tv, False)
+                tvb, changed = _boolify(ses, ir, tv)
                 if changed:
                     builtb = outcome(lambda: ses.codec.build_checked(tvb))
                     if builtb[0] == 'ok':
